@@ -2,11 +2,11 @@
 # usage: tools/run_all.sh [quick|thorough] [ids...]   - runs the checks one after another, prints exit status and wall time
 TIER=${1:-quick}; shift
 IDS=${@:-C01 C02 C03 C04 C05 C06 C07 C08 C09 C10 C11 C12 C13 C14 C15 C16 C17 C18 C19 C20}
-cd /verif
+cd $(dirname $(dirname $(realpath "$0")))
 for id in $IDS; do
   s=$(date +%s)
-  ./check $id --tier $TIER > /tmp/runall-$id.log 2>&1
+  ./check $id --tier $TIER > /tmp/runall-$TIER-$id.log 2>&1
   rc=$?
   e=$(date +%s)
-  echo "$id exit=$rc wall=$((e-s))s $(grep -c '^KNOWN-FINDING' /tmp/runall-$id.log) known $(grep -c '^VIOLATION' /tmp/runall-$id.log) violations"
+  echo "$id exit=$rc wall=$((e-s))s $(grep -c '^KNOWN-FINDING' /tmp/runall-$TIER-$id.log) known $(grep -c '^VIOLATION' /tmp/runall-$TIER-$id.log) violations"
 done
